@@ -15,6 +15,7 @@ from ..runner import Result
 from ..domains import estimates as E
 from ..domains import libs
 
+TWO_HASH_SEEDS = ('thorough',)   # tiers in which the space is walked under a second PYTHONHASHSEED
 LEVEL = 'exploration'
 UNITS = [{}] + [{'molar enthalpy': h, 'molar entropy': s,
                  'molar heat capacity': s, 'temperature': t}
